@@ -18,12 +18,22 @@ import mutscreen as M
 import gen_src as G
 
 DEPENDENTS = {"encode_varint": ["encode_varint", "prepend_compact_size", "add_magic_prefix"], "op_push_data": ["op_push_data", "push_integer"],
-              "schnorr_tagged_hash": ["tagged_hash"], "get_target_bits": ["block_header"], "serialize_header": ["block_header"], "get_block_hash": ["block_header"], "tagged_hash": ["tagged_hash", "tapbranch_tagged_hash", "tapleaf_tagged_hash"]}
+              "schnorr_tagged_hash": ["tagged_hash"], "get_target_bits": ["block_header"], "txout_to_bytes": ["tx_parts"], "txin_to_bytes": ["tx_parts"], "serialize_header": ["block_header"], "get_block_hash": ["block_header"], "tagged_hash": ["tagged_hash", "tapbranch_tagged_hash", "tapleaf_tagged_hash"]}
 ONLY = [a for a in sys.argv[1:] if not a.startswith("--") and not a.endswith(".json")]
 
 
 def probes(qual, file=""):
     r = random.Random(5)
+    if qual == "TxOutput.to_bytes":
+        scripts = [[], ["OP_1"], ["OP_DUP", "OP_HASH160", "aa" * 20, "OP_EQUALVERIFY", "OP_CHECKSIG"], ["bb" * 252], ["bb" * 253], ["cc" * 70000], [5, 17, 300]]
+        return [(a, sc) for a in (0, 1, 546, 2 ** 32, 2 ** 63 - 1, 2 ** 63, -1, -2 ** 63, -2 ** 63 - 1) for sc in scripts[:3]] + [(7, sc) for sc in scripts]
+    if qual == "TxInput.to_bytes":
+        out = []
+        for txid in ("00" * 32, "11" * 32, "00" * 31 + "01", "ab" * 32):
+            for vout in (0, 1, 2 ** 32 - 1, 2 ** 32, -1):
+                for sc in ([], ["aabb"], ["OP_1", "cc" * 80], ["dd" * 300], ["OP_DUP"]):
+                    out.append((txid, vout, sc, b"\xff\xff\xff\xff" if vout % 2 == 0 else b"\x01\x00\x00\x00"))
+        return out
     if qual.startswith("BlockHeader."):
         hs = []
         for bits in (0x1d00ffff, 0x03000001, 0x02000001, 0x00ffffff, 0x207fffff, 0x21000001, 0xff7fffff, 0x04800000, 0):
@@ -79,6 +89,10 @@ for args in T.probes(qual, file):
     try:
         if qual == "tagged_hash" and file.endswith("schnorr.py"):
             r = schnorr.tagged_hash(*args)
+        elif qual == "TxOutput.to_bytes":
+            r = transactions.TxOutput(args[0], script.Script(args[1])).to_bytes()
+        elif qual == "TxInput.to_bytes":
+            r = transactions.TxInput(args[0], args[1], script.Script(args[2]), args[3]).to_bytes()
         elif qual.startswith("BlockHeader."):
             from bitcoinutils import block
             h = block.BlockHeader(args[0], args[1], args[2], args[3], args[4], args[5])
